@@ -60,3 +60,15 @@ func (h *HttpServer) VerifC27AllowedReturnOrigins() []string {
 	}
 	return out
 }
+
+// VerifC27DefaultReturnOrigin is the return origin that is always allowed.
+const VerifC27DefaultReturnOrigin = defaultAllowedReturnOrigin
+
+// VerifC27ValidateReturnTo calls validateReturnTo with the allowlist this
+// server built from its OAuthPkceConfig ("" when PKCE is off).
+func (h *HttpServer) VerifC27ValidateReturnTo(u string) string {
+	if h.pkce == nil {
+		return ""
+	}
+	return validateReturnTo(u, h.pkce.allowedReturnOrigins)
+}
